@@ -123,6 +123,56 @@ def rule_memo_safety(ck, m, rid, pid, extra_files=()):
                 ck.ob(rid, st, not muts,
                       f"{q2} modifies in place (`{short(muts[0], 50) if muts else ''}`) the object returned by the memoised {q}: the cached object itself is changed, so the next call "
                       f"with the same arguments returns the modified object", stmt=f"memo safety M2: result of {q} not mutated in {q2}")
+        # M2 (one hop further): a caller that hands the memoised object on in its own return value (possibly as one element of a tuple): whoever
+        # receives it from there must not modify it in place either
+        for rel2, q2, f2, c in callers:
+            pos = None                      # (index, length) of the memoised object in f2's returned tuple; (None, None) = returned whole
+            for r_ in body_walk(f2):
+                if not (isinstance(r_, ast.Return) and r_.value is not None):
+                    continue
+                rv = r_.value
+                holders = [rv] if not isinstance(rv, ast.Tuple) else list(rv.elts)
+                for i_, h_ in enumerate(holders):
+                    inside = any(x is c for x in ast.walk(h_))
+                    if not inside and isinstance(h_, ast.Name):
+                        from tiv.sem import trace as _tr
+                        inside = any(isinstance(x, ast.Call) and (call_name(x) or "").split(".")[-1] == fn.name for x in ast.walk(_tr(f2, h_, use=r_)))
+                    if inside and not isinstance(h_, ast.Starred):
+                        if not isinstance(rv, ast.Tuple):
+                            pos = (None, None)
+                        else:
+                            # position counted from the start / from the end, whichever side has no starred element in between
+                            pos = (i_ if not any(isinstance(e_, ast.Starred) for e_ in holders[:i_]) else None,
+                                   len(holders) - i_ if not any(isinstance(e_, ast.Starred) for e_ in holders[i_:]) else None)
+            if pos is None:
+                continue
+            for rel3, q3, f3 in m.functions():
+                for c3 in body_walk(f3):
+                    if not (isinstance(c3, ast.Call) and (call_name(c3) or "").split(".")[-1] == f2.name and f3 is not f2):
+                        continue
+                    st3 = enclosing_stmt(c3)
+                    if not (isinstance(st3, ast.Assign) and st3.value is c3 and len(st3.targets) == 1):
+                        continue
+                    tg = st3.targets[0]
+                    nm3 = None
+                    if pos == (None, None) and isinstance(tg, ast.Name):
+                        nm3 = tg.id
+                    elif pos != (None, None) and isinstance(tg, (ast.Tuple, ast.List)):
+                        from_start, from_end = pos
+                        els = tg.elts
+                        e_ = None
+                        if from_start is not None and from_start < len(els) and not any(isinstance(x_, ast.Starred) for x_ in els[:from_start + 1]):
+                            e_ = els[from_start]
+                        elif from_end is not None and from_end <= len(els) and not any(isinstance(x_, ast.Starred) for x_ in els[len(els) - from_end:]):
+                            e_ = els[len(els) - from_end]
+                        nm3 = e_.id if isinstance(e_, ast.Name) else None
+                    if nm3 is None:
+                        continue
+                    muts = [x for x in body_walk(f3) if isinstance(x, ast.Call) and isinstance(x.func, ast.Attribute) and isinstance(x.func.value, ast.Name) and x.func.value.id == nm3 and x.func.attr in IN_PLACE]
+                    muts += [x for x in body_walk(f3) if isinstance(x, (ast.Subscript, ast.Attribute)) and isinstance(x.ctx, (ast.Store, ast.Del)) and isinstance(x.value, ast.Name) and x.value.id == nm3]
+                    ck.ob(rid, st3, not muts,
+                          f"{q3} modifies in place (`{short(muts[0], 50) if muts else ''}`) the object it gets from {q2}, which is the object returned by the memoised {q}: the cached object itself is changed, "
+                          f"so every later call with the same arguments returns the modified object", stmt=f"memo safety M2: result of {q} (via {q2}) not mutated in {q3}")
     return len(memo)
 
 
